@@ -7,6 +7,7 @@ import (
 	"net"
 	"os"
 	"sort"
+	"strconv"
 	"strings"
 	"sync"
 	"sync/atomic"
@@ -785,6 +786,19 @@ func TestC12(t *testing.T) {
 		{"serial", "serial-backoff"}, {"udp-server"}, {"mixed"}}
 	kinds := c12kinds
 	byGroup := nsh == len(groups) || nsh == len(groups)+1
+	// resumption after the known crash (which kills the child): the driver passes the number of the job that was under way
+	// when the previous attempt died; jobs up to and including it are not repeated, what they observed is in the
+	// checkpoint of that attempt
+	resume, _ := strconv.Atoi(os.Getenv("VERIF_RESUME_JOB"))
+	begin := func(job int) bool {
+		if job <= resume {
+			return false
+		}
+		if pf := os.Getenv("VERIF_PROGRESS"); pf != "" {
+			_ = os.WriteFile(pf, []byte(strconv.Itoa(job)), 0o644)
+		}
+		return true
+	}
 	if nsh == len(groups)+1 && shard == nsh-1 {
 		// a child process of its own: nodes that have been up for longer than the library's 30 s housekeeping period
 		c12long(rep)
@@ -841,6 +855,9 @@ func TestC12(t *testing.T) {
 				if !byGroup && job%nsh != shard {
 					continue
 				}
+				if !begin(job) {
+					continue
+				}
 				kk := k
 				if k == K && hits[p] > K {
 					kk = K + r.Intn(minInt(hits[p]-K, 40)) // a later occurrence
@@ -861,6 +878,7 @@ func TestC12(t *testing.T) {
 						break
 					}
 				}
+				rep.Checkpoint()
 				if stuck {
 					break
 				}
@@ -875,7 +893,11 @@ func TestC12(t *testing.T) {
 			if !byGroup && job%nsh != shard {
 				continue
 			}
+			if !begin(job) {
+				continue
+			}
 			c12placement(rep, r, kind, "", 0, i%2 == 0, 3, 0)
+			rep.Checkpoint()
 			if rep.NViolationEvents() >= 3 {
 				stuck = true
 			}
@@ -889,8 +911,10 @@ func TestC12(t *testing.T) {
 		c12relife(rep, r)
 	}
 	rep.Sample(map[string]interface{}{"placement": "scenario=tcp-server point=ch.reader.afterRead occurrence=2 consumer=stopped writers=3 release_delay=200us"})
-	rep.Floor("placements", 10)
-	rep.Floor("placements_reached_trap", 4)
+	if resume == 0 {
+		rep.Floor("placements", 10)
+		rep.Floor("placements_reached_trap", 4)
+	}
 }
 
 var stuckFlag int32
